@@ -124,6 +124,21 @@ def path_at(text: str, pos: int) -> list:
     return [s for s in stack if s is not None] + ([pending] if pending else [])
 
 
+def bare_constant_at(text: str) -> int:
+    """offset of the first NaN / Infinity outside a string"""
+    i = 0
+    while i < len(text):
+        c = text[i]
+        if c == '"':
+            i += 1
+            while i < len(text) and text[i] != '"':
+                i += 2 if text[i] == '\\' else 1
+        elif text.startswith(('NaN', 'Infinity', '-Infinity'), i):
+            return i
+        i += 1
+    return 0
+
+
 def find_duplicate_path(text: str, dup_key: str) -> list:
     """where the object holding the duplicate is: parse leniently, walk, and report the path of the first object with a repeat"""
     found: list = []
@@ -300,9 +315,14 @@ def judge_json(string: str, kind: str, mode: str, version: str, has_body: bool) 
         problems.append(Problem('duplicate-key', norm_path(where) if where else norm_key(exc.key), str(exc)[:300]))
         return None, problems
     except ValueError as exc:
-        pos = getattr(exc, 'pos', 0)
+        pos = getattr(exc, 'pos', None)
+        clause = 'unparseable'
+        if pos is None:
+            # NaN / Infinity: Python writes and reads them, RFC 8259 has no such number and other parsers refuse the line
+            pos = bare_constant_at(body)
+            clause = 'non-json-number'
         where = path_at(body, pos)
-        problems.append(Problem('unparseable', norm_path(where), f'{exc} near ...{body[max(0, pos - 70) : pos + 50]!r}'))
+        problems.append(Problem(clause, norm_path(where), f'{exc} near ...{body[max(0, pos - 70) : pos + 50]!r}'))
         return None, problems
     problems += judge_envelope(doc, kind, mode, version, has_body)
     return doc, problems
